@@ -331,9 +331,9 @@ func runServerCases(seed uint64, n int, res *Result) ([]cexCase, error) {
 }
 
 func compareServer(check string, cases []cexCase, res *Result) error {
-	lines := make([]string, len(cases))
-	for i, c := range cases {
-		lines[i] = c.line
+	lines := make([]string, 0, 2*len(cases))
+	for _, c := range cases {
+		lines = append(lines, c.line, "srvspec"+c.line[3:])
 	}
 	outs, err := runModel(lines)
 	if err != nil {
@@ -344,8 +344,25 @@ func compareServer(check string, cases []cexCase, res *Result) error {
 			res.Count("frame:" + l)
 		}
 		res.Eval(c.key, true, shorten(c.line, 300)+" => "+shorten(c.impl, 300))
-		if stripEnded(outs[i]) != c.impl {
-			res.Add(Finding{Kind: "correspondence", Check: check, Line: c.line, Impl: c.impl, Expect: stripEnded(outs[i])})
+		model, spec := stripEnded(outs[2*i]), stripEnded(outs[2*i+1])
+		if spec != c.impl {
+			// property oracle (Spec.serverEvents per complete frame) disagrees with the implementation
+			note := "server events differ from Spec.serverEvents"
+			ie, se := strings.Split(c.impl, ";"), strings.Split(spec, ";")
+			k, calls := 0, 0
+			for k < len(ie) && k < len(se) && ie[k] == se[k] {
+				if strings.HasPrefix(ie[k], "call:") {
+					calls++
+				}
+				k++
+			}
+			script := strings.Split(strings.Fields(c.line)[1], ",")
+			if k < len(ie) && ie[k] == "closed" && calls > 0 && script[(calls-1)%len(script)] == "e:ErrProtocolError" {
+				note = "handler returned ErrProtocolError: connection closed without a response (expected an exception response, code 04)"
+			}
+			res.Add(Finding{Kind: "property", Check: "srvspec", Line: c.line, Impl: c.impl, Expect: spec, Note: note})
+		} else if model != c.impl {
+			res.Add(Finding{Kind: "correspondence", Check: check, Line: c.line, Impl: c.impl, Expect: model})
 		}
 	}
 	return nil
